@@ -454,6 +454,18 @@ def headers_sync_state(ctx, P, cg):
     ss = check_guard(ctx, vr, P, is_append, "REDL && CONT && PDT && (ALL || !CPOS || (HAVE && MATCH))", at_r, "ValidateAndStoreRedownloadedHeader/append",
                      "a redownloaded header is buffered only in REDOWNLOAD, if it continues the buffered chain, has a permitted difficulty transition and - unless the "
                      "redownloaded work already reached the minimum - matches the commitment stored for its height")
+    # reject direction: a commitment mismatch alone (whatever else holds at that point) makes the function fail; the container
+    # is mutated (pop_front) between the emptiness test and the comparison, so this is checked on the rejection's own innermost guard
+    mism = [e for e in exits(vr, P, rsub) if is_false_ret(e) and any(at_r["MATCH"].fullmatch(a) for a in F.atoms(e.own_formula(None)))]
+    okm = False
+    for e in mism:
+        inner = [g for g in e.guards if g.kind in ("if", "sc")][-1:]
+        fi = F.mk_and([g.formula(rsub) for g in inner])
+        fb, _, un = F.bind_atoms(fi, {"MATCH": at_r["MATCH"]})
+        if F.equivalent(fb, F.parse("!MATCH")):
+            okm = True
+    ctx.ob("ValidateAndStoreRedownloadedHeader/mismatch-rejects", "LADDER", "at a commitment position a header whose commitment bit differs from the stored one is rejected "
+           "unconditionally (the innermost guard of that rejection is exactly the mismatch)", okm, vr.where, [F.fshow(e.own_formula(None))[:200] for e in mism])
     for s in ss:
         ok = match(["param", hd], call_args(s.expr)[0]) or contains(["param", hd], call_args(s.expr)[0])
         ctx.ob("ValidateAndStoreRedownloadedHeader/append-what@L%s" % s.line, "PROVENANCE", "the buffered header is the header that was just checked", bool(ok), s.where)
